@@ -132,6 +132,38 @@ LXH("lx_label_sep", ["C18", "C10", "C05", "C04", "C01"], "quick", "<= 2 code poi
     stubs=["WorkTokenizedBuffer::insert_token -> shadow (buf_refines_shadow_insert)", "real token vector mirrors the shadow for iter_token_infos"], contexts=["after_ident"])
 
 
+NUMS = ["numeric::try_parse_decimal / try_parse_hex_integer -> arbitrary result within their contract (length inside the numeric prefix, any type, optional error); integer paths checked by num_*_spec"]
+LXH("lx_numeric_literal", COMMON + ["C06", "C08", "C16", "C11"], "quick", "<= 4 code points starting with a digit or '.digit'", ["Lexer::lex_numeric_literal"], 900, stubs=NUMS, contexts=["default", "quote"])
+RES = ["macro::get_macro_resolve_ops_from_amps -> set bits of the count (mac_resolve_ops_spec)"]
+LXH("lx_macro_var_expr_k3", ["C01", "C02", "C03", "C06", "C13"], "thorough", "'&' + <= 2 ASCII chars", ["Lexer::lex_macro_var_expr"], 3600, stubs=XID + RES, fixed="&", contexts=["default", "semi_text", "str_expr"], mem=20)
+LXH("lx_macro_var_expr_k4", ["C01", "C02", "C03", "C06", "C13"], "thorough", "'&' + <= 3 ASCII chars", ["Lexer::lex_macro_var_expr"], 7200, stubs=XID + RES, fixed="&", contexts=["default", "semi_text", "str_expr"], mem=24)
+LXH("lx_macro_var_expr_cont_k6", ["C01", "C02", "C03", "C06"], "thorough", "'&a&&&' + <= 1 ASCII char", ["Lexer::lex_macro_var_expr"], 7200, stubs=XID + RES, fixed="&a&&&", contexts=["default", "semi_text"], mem=24)
+LXH("lx_new_bom", ["C02", "C03", "C04", "C15", "C17", "C01"], "quick", "<= 3 code points, first symbolic (may be U+FEFF)", ["Lexer::new", "Cursor::eat_char"], 600, stubs=["WorkTokenizedBuffer::new -> concrete capacities"], contexts=["default"])
+HARNESSES[-1]["decoder"] = None
+LXH("lx_str_expr_text_eof", ["C01", "C02", "C03", "C04", "C09", "C10"], "thorough", "<= 1 code point then end of input; optional extra token on any channel", ["Lexer::lex_str_expr_text", "Lexer::handle_unterminated_str_expr", "Lexer::update_last_token"], 3600, stubs=XID + HEXS, contexts=["str_expr"], mem=20)
+ARM = ["Lexer::dispatch_macro_call_or_stat -> unreachable (followers assumed not to start a macro call)"] + XID + RES + HEXS
+for nm, fn, ctx, first in (("semi_text_arm_nl", "dispatch_macro_semi_term_text_expr", "semi_text", "\n"), ("semi_text_arm_percent", "dispatch_macro_semi_term_text_expr", "semi_text", "%"),
+                           ("semi_text_arm_slash", "dispatch_macro_semi_term_text_expr", "semi_text", "/"), ("stat_opts_arm_percent", "dispatch_macro_stat_opts_text_expr", "stat_opts", "%"),
+                           ("arg_value_arm_nl", "dispatch_macro_call_arg_value", "arg_value", "\n"), ("arg_value_arm_percent", "dispatch_macro_call_arg_value", "arg_value", "%"),
+                           ("arg_value_arm_comma", "dispatch_macro_call_arg_value", "arg_value", ","), ("arg_value_arm_rparen", "dispatch_macro_call_arg_value", "arg_value", ")"),
+                           ("str_call_arm_nl", "dispatch_macro_str_quoted_expr", "str_call", "\n"), ("str_call_arm_slash", "dispatch_macro_str_quoted_expr", "str_call", "/"),
+                           ("str_call_arm_rparen", "dispatch_macro_str_quoted_expr", "str_call", ")")):
+    LXH(f"lx_{nm}", COMMON + ["C06", "C13"], "thorough", f"first char {first!r} (constant) + <= 2 code points; pnl any u32; flags symbolic", [f"Lexer::{fn}"], 3600, stubs=ARM, fixed=first, contexts=[ctx], mem=20)
+LXH("lx_semi_text_arm_semi", COMMON + ["C06", "C14"], "quick", "';' + <= 2 code points", ["Lexer::dispatch_macro_semi_term_text_expr"], 600, stubs=ARM, fixed=";", contexts=["semi_text"])
+LXH("lx_stat_opts_arm_assign", COMMON + ["C06"], "quick", "'=' + <= 2 code points", ["Lexer::dispatch_macro_stat_opts_text_expr"], 900, stubs=ARM, fixed="=", contexts=["stat_opts"])
+for nm, fn, ctx, first in (("semi_text_arm_nl_k2", "dispatch_macro_semi_term_text_expr", "semi_text", "\n"), ("semi_text_arm_percent_k2", "dispatch_macro_semi_term_text_expr", "semi_text", "%"),
+                           ("arg_value_arm_nl_k2", "dispatch_macro_call_arg_value", "arg_value", "\n"), ("str_call_arm_nl_k2", "dispatch_macro_str_quoted_expr", "str_call", "\n"),
+                           ("stat_opts_arm_percent_k2", "dispatch_macro_stat_opts_text_expr", "stat_opts", "%")):
+    LXH(f"lx_{nm}", COMMON + ["C06", "C13"], "quick", f"first char {first!r} (constant) + <= 1 code point", [f"Lexer::{fn}"], 2400, stubs=ARM, fixed=first, contexts=[ctx], mem=16)
+LXH("lx_eval_string_k3", COMMON + ["C06", "C08", "C13"], "quick", "<= 3 code points; flags, pnl symbolic", ["Lexer::lex_macro_string_in_macro_eval_context"], 3000, stubs=XID + NUMS + ["macro::is_macro_stat -> arbitrary bool (phf lookup)"], contexts=["eval"], mem=20)
+DEAD = ["sub-lexers of other first-character arms -> unreachable"]
+LXH("lx_default_star", COMMON + ["C06", "C11"], "quick", "'*' + <= 2 code points; macro nesting 0/1, pending flag symbolic", ["Lexer::dispatch_mode_default", "Lexer::lex_symbols", "Lexer::lex_predicted_comment", "Lexer::rollback"], 900, stubs=DEAD + XID, fixed="*", contexts=["default", "in_macro"])
+LXH("lx_default_symbol", COMMON + ["C06", "C11"], "quick", "<= 2 code points, first of the symbol/unknown class", ["Lexer::dispatch_mode_default", "Lexer::lex_symbols"], 900, stubs=DEAD + XID, contexts=["default"])
+KWS = ["token_type::parse_keyword -> None (the datalines words are not keywords)"]
+LXH("lx_datalines_cards_k6", COMMON + ["C06", "C10", "C11", "C16"], "thorough", "'cArds' + <= 1 code point; previous default token ';' or not", ["Lexer::lex_identifier", "Lexer::lex_datalines"], 5400, stubs=KWS + XID, fixed="cArds", contexts=["default"], mem=24)
+LXH("lx_datalines_cards", COMMON + ["C06", "C10", "C11", "C16"], "thorough", "'cArds' + <= 2 code points", ["Lexer::lex_identifier", "Lexer::lex_datalines"], 10800, stubs=KWS + XID, fixed="cArds", contexts=["default"], mem=28)
+LXH("lx_str_expr_percent_k4", COMMON + ["C06", "C07", "C10"], "thorough", "'%' + <= 3 code points inside a string expression", ["Lexer::dispatch_mode_str_expr", "Lexer::lex_str_expr_text", "Lexer::resolve_string_literal_payload"], 3600, stubs=XID + HEXS + ["Lexer::lex_macro_identifier -> unreachable"], fixed="%", contexts=["str_expr"], mem=20)
+
 # ---------------------------------------------------------------------------------------------
 # macro.rs / lexer_mode.rs / numeric.rs leaves
 H("mac_mnemonic_case_and_shape", MAC, ["C16", "C13", "C06"], bound="<= 4 chars, all case flips symbolic", funcs=["is_macro_eval_mnemonic"], stubs=XID, timeout=600, mem=8)
